@@ -38,7 +38,7 @@ Kinds(q) == [i \in 1..Len(q) |-> q[i].k]
 View4(a) == IF Has(inv, a) THEN [has |-> TRUE, c |-> inv[a].c, f |-> inv[a].f] ELSE [has |-> FALSE, c |-> NONE, f |-> NONE]
 Mismatch(ev, prev) ==
   {k \in {"structure_to_rt", "structure_to_nrt", "unassigned_controller_not_announced", "backend_messages", "value_out_of_range", "value_not_monotone", "value_not_the_linear_map", "learn_queue", "bindings",
-          "LearnOrder", "UniqueIds", "GenConsistent", "DrivesItsAddress", "AssignedIsLive"} :
+          "LearnOrder", "UniqueIds", "GenConsistent", "DrivesItsAddress", "AssignedIsLive", "NoStuckController"} :
    ~ CASE k = "structure_to_rt"  -> ev.to_rt = Kinds(toRT)
        [] k = "structure_to_nrt" -> ev.to_nrt = toNRT
        \* the property's first step: a controller that is neither assigned nor already announced arrives while the realtime half has been told to
@@ -63,6 +63,7 @@ Mismatch(ev, prev) ==
        [] k = "UniqueIds" -> UniqueIds
        [] k = "GenConsistent" -> GenConsistent
        [] k = "DrivesItsAddress" -> DrivesItsAddress
-       [] k = "AssignedIsLive" -> AssignedIsLive }
+       [] k = "AssignedIsLive" -> AssignedIsLive
+       [] k = "NoStuckController" -> NoStuckController }
 Judge == (l <= 1) \/ LET m == Mismatch(Evs[l - 1], prevv) IN m = {} \/ PrintT(<<"REJECT", x, m, l - 1>>)
 =============================================================================
